@@ -418,6 +418,7 @@ static int Vec01(int argc, char ** argv)
 //   N free-running threads; thread i owns vectors i, i+N, ...: it builds them through their scripts, then for the given time sizes, serialises (bytes = the
 //   specification's), parses into a fresh and into its own re-used target, re-serialises and compares checksums - nothing is shared between the threads but the library.
 #include <pthread.h>
+static std::string FlatPlain(const Message & m);
 struct MTShared {std::vector<mj::Value> * vec; int nThreads; uint64_t deadline; pthread_mutex_t mu; std::vector<mj::Value> bad; uint64_t trips; volatile bool stop;};
 struct MTArg {MTShared * sh; int idx;};
 static void * MTWorker(void * a)
